@@ -1037,6 +1037,12 @@ TAGGED_CASES = [
     ("a: !foo bar\n", "a: !baz bar\n", False),
     ("a: !foo bar\n", "a: bar\n", False),
     ("[!t 1, x]\n", "[!t 2, x]\n", False),
+    # one datum in two YAML spellings (plain / quoted text, decimal / hexadecimal): the same data, also when a
+    # value-synchronised sequence has to pair the two spellings
+    ("hosts: [alpha, \"beta\", gamma]\n", "hosts: [alpha, beta, 'gamma']\n", True),
+    ("hosts: [alpha, \"beta\", gamma]\n", "hosts: ['gamma', alpha, beta]\n", "value-only"),
+    ("ports: [16, 0x20, 3]\n", "ports: [3, 0x10, 32]\n", "value-only"),
+    ("a: \"x\"\nb: 0x10\n", "a: x\nb: 16\n", True),
 ]
 
 
@@ -1044,6 +1050,8 @@ def tagged_scalar_cases(col, inidir):
     """Two separately loaded documents with custom-tagged scalars: no difference exactly when tag and value agree."""
     for (ly, ry, equal) in TAGGED_CASES:
         for arrays, aoh in (("position", "position"), ("value", "value")):
+            if equal == "value-only" and arrays != "value":
+                continue
             inp = {"lhs": ly, "rhs": ry, "arrays": arrays, "aoh": aoh, "via": "args", "tagged": True}
             res = run_differ(config_for(inp, inidir), gen.load(ly), gen.load(ry))
             col.case(("tagged", ly, ry, arrays, res[0]))
@@ -1053,13 +1061,45 @@ def tagged_scalar_cases(col, inidir):
                 continue
             differs = any(e[0] != "SAME" for e in res[1])
             if equal and differs:
-                col.witness("C06/tagged-scalar/identical-documents-show-a-difference",
-                            "two loads of the same text (custom-tagged scalars) are reported as different", inp,
+                col.witness("C06/%s/identical-documents-show-a-difference" % ("tagged-scalar" if "!" in ly else "one-datum-two-spellings"),
+                            "documents holding the same data (custom-tagged scalars / one datum in two YAML spellings) are reported as different", inp,
                             observed=[list(e[:2]) for e in res[1] if e[0] != "SAME"], expected="no non-SAME entry")
             if not equal and not differs:
                 col.witness("C06/tagged-scalar/different-tag-or-value-shows-no-difference",
                             "tagged scalars that differ in tag or value are reported as the same", inp,
                             observed=[list(e[:2]) for e in res[1]], expected="a non-SAME entry")
+
+
+# --------------------------------------------------------------------------- one Differ, several comparisons
+HISTORY_DOCS = ["a: 1\nb: [1, 2]\n", "a: 1\nb: [1, 2]\n", "a: 2\nb: [2, 1]\n", "a: 1\nb: [1, 2, 3]\nc: x\n", "[1]\n"]
+
+
+def differ_history_cases(col, inidir):
+    """compare_to may be called again on the same Differ (the left document stays): every report is the report of the
+    LAST comparison -- what a fresh Differ gives for the same pair -- whatever was compared and read before."""
+    Differ, _, _, _, _ = _lib()
+    for arrays, aoh in (("position", "position"), ("value", "value")):
+        cfg = config_for({"arrays": arrays, "aoh": aoh, "via": "args"}, inidir)
+        for li, ly in enumerate(HISTORY_DOCS[:2]):
+            for order in ((1, 2), (2, 1), (2, 3, 1), (4, 1), (3, 3, 2)):
+                inp = {"check": "differ-history", "lhs": ly, "rhs_sequence": [HISTORY_DOCS[i] for i in order], "arrays": arrays, "aoh": aoh}
+                try:
+                    d = Differ(cfg, _LOG, gen.load(ly))
+                    got = None
+                    for i in order:
+                        d.compare_to(gen.load(HISTORY_DOCS[i]))
+                        got = [(e.action.name, e.path.original, gen.plain(e.lhs), gen.plain(e._rhs)) for e in d.get_report()]
+                except Exception as ex:      # noqa
+                    col.case(("history", arrays, order, "exc"))
+                    col.witness("C06/differ-history/raised-%s" % type(ex).__name__, "a second comparison on the same Differ fails", inp,
+                                observed=repr(ex), expected="a report")
+                    continue
+                want = run_differ(cfg, gen.load(ly), gen.load(HISTORY_DOCS[order[-1]]))
+                col.case(("history", arrays, order, len(got)))
+                if want[0] == "ok" and got != want[1]:
+                    col.witness("C06/differ-history/report-is-not-that-of-the-last-comparison",
+                                "after several compare_to calls the report differs from a fresh Differ's report for the last pair", inp,
+                                observed=_jsonable(got)[:6], expected=_jsonable(want[1])[:6])
 
 
 def _run_main(yaml_diff, argv):
@@ -1182,6 +1222,7 @@ def run(tier="quick", seed=0, jobs=None):
         exit_status_cases(col, inidir, pairs)
         rule_scope_cases(col, inidir)
         tagged_scalar_cases(col, inidir)
+        differ_history_cases(col, inidir)
         lap("E")
         b["phase_wall_s"] = phase
     finally:
@@ -1215,6 +1256,8 @@ def replay(inp):
             rule_scope_cases(col, inidir)
         elif inp.get("tagged"):
             tagged_scalar_cases(col, inidir)
+        elif inp.get("check") == "differ-history":
+            differ_history_cases(col, inidir)
         else:
             L = gen.load(inp["lhs"])
             R = L if inp.get("same_object") else gen.load(inp["rhs"])
